@@ -14,7 +14,7 @@ import (
 const repoMod = "github.com/SaoNetwork/sao"
 
 func inRepo(fn *ssa.Function) bool {
-	return fn != nil && fn.Pkg != nil && strings.HasPrefix(fn.Pkg.Pkg.Path(), repoMod)
+	return fn != nil && fn.Pkg != nil && isRepoPath(fn.Pkg.Pkg.Path())
 }
 
 // funcKey gives the contract key of a function: pkgpath.Recv.Name
@@ -840,3 +840,5 @@ func reachesAfter(p ssa.Instruction, u ssa.Instruction, stop *ssa.BasicBlock) bo
 	}
 	return false
 }
+
+func isRepoPath(p string) bool { return p == repoMod || strings.HasPrefix(p, repoMod+"/") }
